@@ -9,7 +9,8 @@ from ..valgen import Gen, type_exact_eq, share_equal
 from ..condgen import CondGen
 from ..pathgen import PathGen
 from ..rulegen import RuleGen
-from ..specgen import SpecGen, normalise_cond, normalise_path
+from ..specgen import SpecGen, normalise_cond, normalise_path, path_leaves
+from .c11 import pathy
 from ..terms import valida
 from .c10 import limit_parts
 
@@ -156,6 +157,17 @@ def run(tier, seed, model_ok, spec_ok, replay=None):
             check("condition", v.conditions.ConditionLike.from_spec, cs, viol, dist, cases)
             check("condition(json)", v.conditions.ConditionLike.from_json_like, cs2, viol, dist, cases)
         pt = normalise_path(limit_parts(pg.path(doc, max_len=3, mods_p=0.4)))
+        for l in path_leaves(pt):
+            # arguments of the conditions INSIDE parts that the parser rewrites when it reads them: escaped literal mappings, path specs
+            # as items of a list argument
+            if l.args and l.method in ("equal_to", "not_equal_to", "in_", "not_in", "eq") and "DataType" not in l.cls \
+                    and "Length" not in l.cls and g.r.random() < 0.2:
+                k = g.r.random()
+                if k < 0.5:
+                    lit = pathy(g, 2)
+                    l.args[0] = [lit, 1] if l.method in ("in_", "not_in") else lit
+                else:
+                    l.args[0] = [normalise_path(limit_parts(pg.path(doc, max_len=2, mods_p=0.3))), g.scalar()]
         for part in pt.parts:
             ps = sg.part_spec(part)
             if isinstance(ps, dict):
